@@ -259,6 +259,29 @@ def spec_records(spec, rows=None, with_index=True, cols=None):
     return out
 
 
+def flatten_axis(kind, v, axis, const):
+    """The element with every x (axis 0) or y (axis 1) coordinate replaced by `const`:
+    data whose total extent is degenerate in exactly one axis."""
+    if v is None:
+        return None
+    if isinstance(v, list) and v and isinstance(v[0], list):
+        return [flatten_axis(kind, x, axis, const) for x in v]
+    out = list(v)
+    for i in range(axis, len(out), 2):
+        if out[i] == out[i]:            # keep NaN (empty point)
+            out[i] = float(const)
+    return out
+
+
+def make_collinear(spec, rng):
+    """Flatten one axis of the active geometry column of a frame spec (in place)."""
+    c = col_of(spec, spec["active"])
+    axis = rng.randrange(2)
+    const = rng.randint(0, 16)
+    c["values"] = [flatten_axis(c["kind"], v, axis, const) for v in c["values"]]
+    return spec
+
+
 def col_of(spec, name):
     for c in spec["cols"]:
         if c["name"] == name:
